@@ -152,8 +152,7 @@ def variant(base, step_i, client, plan, tag, rng, prop):
 def run(prop, tier):
     t0 = time.time()
     rng = random.Random(vf.seed() * 32452843 + int(prop[1:]))
-    workdir = os.path.join(vf.OUT, prop, tier)
-    os.makedirs(workdir, exist_ok=True)
+    workdir = vf.fresh_workdir(prop, tier)
     binary = vf.build_harness()
     notes = []
     states = trans = 0
